@@ -10,3 +10,7 @@ import RedkaModel.Props.C02rules
 #print axioms Redka.Props.C02.range_in_range
 #print axioms Redka.Props.C02.range_infix
 #print axioms Redka.Props.C02.trim_keeps_range
+#print axioms Redka.Props.C02.rank_negative_empty
+#print axioms Redka.Props.C02.rank_inverted_empty
+#print axioms Redka.Props.C02.rank_in_range
+#print axioms Redka.Props.C02.rank_stop_clamped
